@@ -71,12 +71,24 @@ type APILog struct {
 	mu  sync.Mutex
 	evs []APIEvent
 	n   int64
+	np  int64 // events other than scheduler state reports
+}
+
+// Progress is the number of events logged so far that show the run moving
+// (everything but the scheduler's periodic state reports).
+func (l *APILog) Progress() int64 {
+	l.mu.Lock()
+	defer l.mu.Unlock()
+	return l.np
 }
 
 // Add appends e and returns its stamp.
 func (l *APILog) Add(e APIEvent) int64 {
 	l.mu.Lock()
 	l.n++
+	if e.Ev != "state" {
+		l.np++
+	}
 	e.Stamp = l.n
 	if e.Toks == nil {
 		e.Toks = []Tok{}
@@ -219,11 +231,50 @@ func AllBlockedOnChannels(gs []Goroutine) bool {
 // ConfirmStuck implements the watchdog's second half: two dumps apart must
 // be identical and all goroutines blocked on channels.
 func ConfirmStuck(filter func() []Goroutine, apart time.Duration) (bool, []Goroutine) {
+	return ConfirmStuckP(filter, apart, nil)
+}
+
+// isLoop reports whether g is a scheduler loop goroutine. With an Emitter the
+// loop's select has a ticker arm, so the loop is never parked for good; the
+// ticker arm changes no scheduling state, so a loop that only ticks while
+// every other goroutine is parked and nothing is logged makes no progress.
+func isLoop(g Goroutine) bool {
+	return strings.Contains(g.Text, "scheduler.(*Scheduler).run(")
+}
+
+// ConfirmStuckP is ConfirmStuck with a progress counter (number of events
+// logged so far): the verdict "stuck" additionally requires that nothing
+// was logged between the two dumps; scheduler loop goroutines only have to
+// be the same ones in both dumps, they may be spinning on their ticker.
+func ConfirmStuckP(filter func() []Goroutine, apart time.Duration, progress func() int64) (bool, []Goroutine) {
+	var p0 int64
+	if progress != nil {
+		p0 = progress()
+	}
 	a := filter()
 	time.Sleep(apart)
 	b := filter()
 	if len(b) == 0 {
 		return false, b
 	}
-	return Signature(a) == Signature(b) && AllBlockedOnChannels(b), b
+	if progress != nil && progress() != p0 {
+		return false, b
+	}
+	split := func(gs []Goroutine) (loops []int64, rest []Goroutine) {
+		for _, g := range gs {
+			if progress != nil && isLoop(g) {
+				loops = append(loops, g.ID)
+			} else {
+				rest = append(rest, g)
+			}
+		}
+		sort.Slice(loops, func(i, j int) bool { return loops[i] < loops[j] })
+		return
+	}
+	la, ra := split(a)
+	lb, rb := split(b)
+	if fmt.Sprint(la) != fmt.Sprint(lb) || len(rb) == 0 {
+		return false, b
+	}
+	return Signature(ra) == Signature(rb) && AllBlockedOnChannels(rb), b
 }
